@@ -66,6 +66,11 @@ func Init(property, rule string) *Recorder {
 	if shard == "" {
 		shard = "0"
 	}
+	if os.Getenv("VERIF_FUZZ") != "" {
+		// native fuzzing runs one coordinator and several worker processes from
+		// the same binary: give each its own partial file
+		shard = fmt.Sprintf("%s-fuzz%d", shard, os.Getpid())
+	}
 	global = &Recorder{
 		p: Partial{Property: property, Rule: rule, Classes: map[string]int{},
 			Excluded: map[string]int{}, Extra: map[string]int{}},
@@ -110,6 +115,10 @@ func (r *Recorder) Case(hash uint64, nontrivial bool, classes []string, sample f
 	r.mu.Lock()
 	defer r.mu.Unlock()
 	r.p.Evaluations++
+	if r.p.Evaluations%1000 == 0 && os.Getenv("VERIF_FUZZ") != "" {
+		// fuzz workers are stopped by the coordinator without running TestMain's epilogue
+		defer r.flushLocked(true)
+	}
 	for _, c := range classes {
 		r.p.Classes[c]++
 	}
